@@ -26,6 +26,14 @@ def cases(rng, tier):
             b = a + rng.randint(0, 2)
         yield "paranoia %s %d %d %d" % (w, acct, a, b), "paranoia"
     yield from _seq_cases(rng, tier)
+    # the filtered report on the routes that actually leave the process: the text printed by pprint, the file written
+    # by export_wallet, the json() text — every row count incl. the empty interval, several indents
+    for ln in ([0, 0, 1, 2, 4] if tier == "quick" else list(range(0, 9)) * 3):
+        w = wspecs(rng, 1)[0]
+        a = rng.choice([0, 2, 20])
+        for kind in ("pprint", "export", "json"):
+            yield "paper_text %s %s p:%d:%d:%d %s" % (kind, w, rng.choice([0, 1]), a, a + ln,
+                                                      rng.choice(["4", "-", "0", "2"])), "paranoia-text-%s-rows-%d" % (kind, ln)
 
 
 def _seq_cases(rng, tier):
@@ -82,6 +90,17 @@ def oracle(line, out):
         if m:
             return "second filtered report: " + m
         return None
+    if tok[0] == "paper_text" and tok[3].startswith("p:"):
+        v = ok_val(out)
+        if v is None:
+            return "printing / exporting the filtered report failed"
+        import json
+        try:
+            rep = json.loads(unstr(v))
+        except ValueError:
+            return "text written for the filtered report is not JSON"
+        _, acct, a, b = tok[3].split(":")
+        return oracle("paranoia %s %s %s %s" % (tok[2], acct, a, b), "ok " + impl.jsonS(rep))
     if tok[0] != "paranoia":
         return None
     v = ok_val(out)
